@@ -52,11 +52,25 @@ def handle (op : String) (j : Json) : Except String Json := do
     let sB ← getNatList j "s"
     let r := match specEncode src sB with
       | none => none
-      | some d => match (if op == "retarget" then retarget src tgt d else changeEncoding src tgt d) with
+      | some d => match (if op == "retarget" then retargetFull src tgt d else changeEncoding src tgt d) with
         | none => none
         | some d' => specDecode tgt d'
     let m := match r with
       | some t => Json.mkObj [("text", natList t)]
+      | none => errJ none
+    pure (reply m none)
+  | "retarget_view" | "change_view" =>
+    let src ← getNatList j "src"
+    let tgt ← getNatList j "tgt"
+    let rows ← getNatListList j "rows"
+    -- ragged re-targeting / change_encoding act on the flat data and keep the row lengths
+    let r := match specEncode src rows.flatten with
+      | none => none
+      | some d => match (if op == "retarget_view" then retargetFull src tgt d else changeEncoding src tgt d) with
+        | none => none
+        | some d' => (specDecode tgt d').map (unflatten (rows.map List.length))
+    let m := match r with
+      | some t => Json.mkObj [("rows", natListList t)]
       | none => errJ none
     pure (reply m none)
   | _ => throw s!"C06: unknown op {op}"
